@@ -42,6 +42,9 @@ CHECKS = {
  "C13": ("bounded-exhaustive enumeration of schemas on the real loader (6 bases + every single valid edit, thorough: pairs; every mutation of the 14-rule catalogue at every site and wrapper nesting; both load routes SDL and AddTypes) against an independent rule checker, with public-API read-back and re-check of every accepted schema",
          "Every schema in the bound is loaded; the independent checker decides accept/reject; accepted schemas are read back, re-checked and compared canonically; rejections must name the offender.",
          "The reference rule checker is trusted; mutants it does not itself judge ill-formed are discarded (counted); findings C13-F1..F4 are behaviours pinned by the suite, matched narrowly by rule+site.", "5.13"),
+ "C15": ("bounded-exhaustive enumeration of schemas (C13 accepting side, both load routes) and of string contents (every string of <= 2, thorough 3, units over a 13-unit escaping alphabet at each of 20 description / string-constant sites) on the real printer and parser; read-back differential oracle (printed SDL accepted, same canonical schema, fixed point); thorough adds ggqlgen -w on the bases",
+         "Every schema/string in the bound is loaded, printed, re-loaded in a fresh root, read back through the public API and compared canonically; the second print must equal the first.",
+         "Descriptions compared as the parser normalises them; null defaults not generated; per-type SDL() not separately re-parsed; ggqlgen -e not yet exercised.", "5.15"),
 }
 
 NOT_YET = {}
